@@ -1,5 +1,5 @@
 """Line protocol to the native Lean driver (lean/.lake/build/bin/driver)."""
-import struct, subprocess, math
+import struct, subprocess, math, os, select
 from .paths import DRIVER
 
 def f2h(x):
@@ -19,10 +19,16 @@ class Driver:
         self.p = subprocess.Popen([DRIVER], stdin=subprocess.PIPE, stdout=subprocess.PIPE,
                                   text=True, bufsize=1)
         self.lines = 0
+        self.log = open(os.environ['VERIF_DRVLOG'], 'w') if os.environ.get('VERIF_DRVLOG') else None
     def ask(self, line):
         assert '\n' not in line
+        if self.log: self.log.write(line + '\n'); self.log.flush()
         self.p.stdin.write(line + '\n')
         self.p.stdin.flush()
+        # one answer line per request, so nothing is buffered here; a model that does not answer is reported, not waited for
+        if not select.select([self.p.stdout], [], [], float(os.environ.get('VERIF_DRV_TIMEOUT', '300')))[0]:
+            self.p.kill()
+            raise RuntimeError('model driver gave no answer within the time limit on: ' + line[:200])
         out = self.p.stdout.readline()
         if not out:
             raise RuntimeError('driver died on: ' + line[:200])
